@@ -59,6 +59,8 @@ ASSUMPTIONS = [
     "produces for it (get_mid_point = 0.5(start+end); missing hierarchy points are completed with arithmetic "
     "midpoints, exterior knots are start+i*h); on weighted or relabelled B-spline trees (a strongly graded 0.2-ratio tree of depth 11 "
     "has cond 1e14-1e17 by construction of these knots) an ill-conditioned matrix is counted, not reported",
+    "polynomial clause: at an evaluation point x the tolerance below is multiplied by max(1, max|surplus| * prod_d sum_j "
+    "|phi_j(x_d)|) (Lebesgue function of the 1D bases - the factor by which a surplus rounding error reaches x)",
     "round trip / reference-surplus / polynomial clauses use the tolerance scale*(1e-10 + 1e-13*cond) with cond = "
     "product over the dimensions of the 2-norm condition numbers of the 1D collocation matrices (built with the "
     "library's own basis objects); cond > 1e10 => the case is counted as 'ill-conditioned-skipped', never a violation",
@@ -863,24 +865,32 @@ def run_polynomials(case):
         pts = random_points(cx, rng, 24)
         got = np.asarray(cx.interpolate(pts), dtype=float)
         want = np.array([mon(x) for x in pts], dtype=float)
-        # scale 1: every test monomial is bounded by 1 on the box.  Observed on the unchanged tree: <= 2e-15*cond.
+        # scale: every test monomial is bounded by 1 on the box; a surplus error (eps*cond*max|s|) is carried to the point
+        # x by sum_i |phi_i(x)| = prod_d L_d(x_d) (Lebesgue function of the 1D bases: 1e2..1e3 away from a cluster of
+        # Lagrange knots 0.8, 0.96, 0.968, 1), so the tolerance at x is tol_cond(cond) * max(1, max|s| * prod_d L_d(x_d)).
+        # Observed on the unchanged tree: <= 1e-3 of it.
+        leb = np.ones(len(pts))
+        for d in range(cx.dim):
+            leb *= np.array([math.fsum(abs(float(bf(x[d]))) for bf in cx.basis(d)) for x in pts])
+        smax = float(np.max(np.abs(np.asarray(cx.surplusses(), dtype=float))))
+        amp = np.maximum(1.0, smax * leb)
+        info_max(out, "poly_max_amplification", float(np.max(amp)))
         tol = tol_cond(cond)
         err = np.abs(got - want) if got.shape == want.shape else None
         if err is None or not np.all(np.isfinite(got)):
             out.bad(sub + "/shape", "%s: interpolate returned shape %s" % (cx.describe(), got.shape))
             return False
-        relmax = float(np.max(err))
-        info_max(out, "poly_rel_err", relmax)
-        info_max(out, "poly_err_over_tol", relmax / tol)
-        if not relmax <= tol:
-            ci = int(np.argmax(np.max(err, axis=0)))
+        info_max(out, "poly_rel_err", float(np.max(err)))
+        ratio = err / (tol * amp[:, None])
+        info_max(out, "poly_err_over_tol", float(np.max(ratio)))
+        if not float(np.max(ratio)) <= 1.0:
+            pi, ci = [int(t) for t in np.unravel_index(int(np.argmax(ratio)), ratio.shape)]
             ks = combos[ci]
             kk = max(ks)
             clause = "constants" if kk == 0 else "linear" if kk == 1 else "degree<=order-with-enough-points"
-            pi = int(np.argmax(err[:, ci]))
             out.bad("%s/%s/%s-%s-%s" % (sub, clause, cx.kind, cx.family, cx.mode),
                     "%s: monomial t^%s (demanded degrees %s, cond %.2e) at x=%s: interpolant %r, exact %r (tolerance %.2g)"
-                    % (cx.describe(), list(ks), kmax, cond, pts[pi], got[pi, ci], want[pi, ci], tol))
+                    % (cx.describe(), list(ks), kmax, cond, pts[pi], got[pi, ci], want[pi, ci], tol * amp[pi]))
         if cx.round == 0:
             seen["kmax"] = max(kmax)
         return True
